@@ -136,6 +136,13 @@ def streams(rng, tier):
             rot = rng.randrange(1, k)
             ren.append(dict(c, renamed=[(j + rot) % k for j in range(k)]))
     out.append(("renamed", ren))
+    reuse = []
+    for name, cases in out[:-2]:
+        cand = [c for c in cases if c.get("op") != "vector" and c.get("cols") and len(c["cols"][0]) >= 2
+                and any(s_[0] == "n" for s_ in c.get("by", ())) and "lived" not in c]
+        for c in rng.sample(cand, min(len(cand), 200 if tier == "quick" else 2000)):
+            reuse.append(dict(c, reuse_args=True))
+    out.append(("reused-keys", reuse))
     return out
 
 
@@ -280,6 +287,14 @@ def observe(case):
                 by.append(vec)
         vpre = [[V.enc(x) for x in vec._underlying] for vec in vecs]
         arg = by[0] if (case.get("bare") and len(by) == 1) else by
+        if case.get("reuse_args"):
+            # the program keeps its key list (KEYS = ['grp', 'val']) and sorted ANOTHER table of the same shape by it before
+            # (the rows in reverse order): sort_by reads its arguments, it does not rewrite them
+            try:
+                t2 = Table({nm: [V.dec(x) for x in reversed(col)] for nm, col in zip(names, case["cols"])})
+                t2.sort_by(arg, reverse=case["reverse"], na_last=case["na_last"])
+            except Exception:                                # noqa: BLE001
+                pass
         try:
             r = t.sort_by(arg, reverse=case["reverse"], na_last=case["na_last"])
         except Exception as e:
